@@ -745,6 +745,23 @@ func (x *Exec) assignRecs(s *State, exprs []string, env *SpecEnv) map[string]wri
 		if src == "" {
 			continue
 		}
+		if strings.HasPrefix(src, "elems(") && strings.HasSuffix(src, ")") {
+			// elems(m): the objects the values of map m point to (and what is
+			// stored inside them), for every key: all objects materialised so far
+			// whose name says they were read out of m, plus a marker that covers
+			// the ones materialised later
+			for _, mrec := range env.evalLoc("*" + strings.TrimSuffix(strings.TrimPrefix(src, "elems("), ")")) {
+				prefix := strings.TrimLeft(mrec.obj.name, "*") + "["
+				out["elems:"+prefix] = writeRec{obj: mrec.obj}
+				for _, o := range x.E.objByName {
+					if strings.HasPrefix(strings.TrimLeft(o.name, "*"), prefix) {
+						r := writeRec{obj: o}
+						out[r.key()] = r
+					}
+				}
+			}
+			continue
+		}
 		for _, rec := range env.evalLoc(src) {
 			out[rec.key()] = rec
 		}
